@@ -99,7 +99,7 @@ func (ex *Exec) runLua(script string, obj LVal) (ret []LVal, errMsg string) {
 		t.keys = append(t.keys, LStrV{mkStr(name)})
 		t.vals = append(t.vals, &LFuncV{builtin: lib + "." + name})
 	}
-	for _, n := range []string{"format", "find", "sub", "len", "lower", "upper", "gsub"} {
+	for _, n := range []string{"format", "find", "sub", "len", "lower", "upper", "gsub", "match"} {
 		set("string", n)
 	}
 	for _, n := range []string{"insert", "remove", "concat"} {
@@ -1067,6 +1067,36 @@ func (li *luaInterp) builtin(name string, args []LVal) []LVal {
 			return []LVal{LNilV{}}
 		}
 		return []LVal{LNumV{mkAdd(idx, mkInt(1))}, LNumV{mkAdd(idx, mkStrLen(pat))}}
+	case "string.match":
+		// decided by gopher-lua's own pattern matcher on concrete subject and pattern
+		s, pat := li.tostr(arg(0)), li.tostr(arg(1))
+		if _, isNil := arg(2).(LNilV); !isNil {
+			if c, ok := li.num(arg(2)).constInt(); !ok || c != 1 {
+				li.ex.unsupported("lua string.match with init != 1")
+			}
+		}
+		if s.op != "c" || pat.op != "c" {
+			li.ex.unsupported("lua string.match on a symbolic subject or pattern")
+		}
+		mds, err := pm.Find(pat.s, []byte(s.s), 0, 1)
+		if err != nil {
+			li.ex.unsupported("lua string.match: malformed pattern: " + err.Error())
+		}
+		if len(mds) == 0 {
+			return []LVal{LNilV{}}
+		}
+		md := mds[0]
+		if md.CaptureLength() <= 2 {
+			return []LVal{LStrV{mkStr(s.s[md.Capture(0):md.Capture(1)])}}
+		}
+		var out []LVal
+		for i := 2; i+1 < md.CaptureLength(); i += 2 {
+			if md.IsPosCapture(i) {
+				li.ex.unsupported("lua string.match with a position capture")
+			}
+			out = append(out, LStrV{mkStr(s.s[md.Capture(i):md.Capture(i+1)])})
+		}
+		return out
 	case "string.format":
 		f := li.tostr(arg(0))
 		if f.op != "c" {
